@@ -133,10 +133,18 @@ def run_session(scn, sched, keep_sim=True, max_decisions=None, extra_setup=None)
 
     npt = [0]
 
+    naux = [0]
+
     def role_for_thread(th):
-        k = npt[0]
-        npt[0] += 1
-        return f'pt:{k}'
+        # connection threads are pt:<accept order>; anything else the tree under test starts
+        # (a writer thread, a pool worker, a timer) is aux:<n>
+        if isinstance(th, server_mod.PlayerThread):
+            k = npt[0]
+            npt[0] += 1
+            return f'pt:{k}'
+        k = naux[0]
+        naux[0] += 1
+        return f'aux:{k}'
     sim.role_for_thread = role_for_thread
 
     def server_main():
